@@ -237,6 +237,61 @@ def cli_batch(acc, batch):
             acc.violation(sig=dict(kind="cli", what=problems[0].split(" ")[0]), case=case, observed=problems, msg=f"`gwf run {' '.join(sel or [])}` dag={dag} fresh={fresh}: {problems[:2]}")
 
 
+def cli_reject_batch(acc, batch):
+    """The scheduler rejects the k-th submission of a run (sbatch exits 1, no job): nothing that depends on the rejected target, directly
+    or through other targets, may be submitted in that run, and what is submitted still names exactly its prerequisites."""
+    from mc import world as W
+
+    for dag, fresh in batch:
+        descs, files = realise(dag, fresh)
+        wf = W.Workflow([W.T(d["name"], d["_ins"], d["_outs"], spec="echo\n") for d in descs])
+        ranks = {v: i + 1 for i, v in enumerate(sorted(set(files.values())))}
+        wfiles = {p[len(WD) + 1:]: (ranks[v], "x") for p, v in files.items()}
+        w = W.World(wf, files=wfiles, conf={"backend": "slurm"})
+        with W.Session(w) as s:
+            s.gwf(["run"])
+            order = [e["name"] for e in s.sim.journal_submits()]
+        deps = {d["name"]: set() for d in descs}
+        byout = {o: d["name"] for d in descs for o in d["_outs"]}
+        for d in descs:
+            deps[d["name"]] = {byout[i] for i in d["_ins"] if i in byout}
+
+        def upstream(n, seen=None):
+            seen = seen if seen is not None else set()
+            for x in deps[n]:
+                if x not in seen:
+                    seen.add(x)
+                    upstream(x, seen)
+            return seen
+
+        for k, rejected in enumerate(order):
+            with W.Session(w) as s:
+                s.sim.s["faults"] = {f"sbatch#{k}": "rc1"}
+                r = s.gwf(["run"])
+                subs = s.sim.journal_submits()
+            idname = {e["id"]: e["name"] for e in subs}
+            got = [e["name"] for e in subs]
+            case = dict(kind="cli-reject", dag=dag, fresh=fresh, k=k, rejected=rejected)
+            problems = []
+            if r.crashed():
+                problems.append(f"crash {r.exc}")
+            bad = sorted(n for n in got if rejected in upstream(n))
+            if bad:
+                problems.append(f"{bad} submitted although {rejected}, which they depend on, was rejected")
+            if rejected in got:
+                problems.append(f"{rejected} is in the scheduler although its submission was rejected")
+            for e in subs:
+                ids = [i for _t, g in (e["deps"] or {"groups": [[]]})["groups"][0] for i in g] if e["deps"] else []
+                want = sorted(deps[e["name"]] & set(order))
+                if sorted(idname.get(i, "?" + i) for i in ids) != want:
+                    problems.append(f"{e['name']} submitted with prerequisites {[idname.get(i, '?' + i) for i in ids]}, expected {want}")
+            acc.case(key=json.dumps(case), outcome=f"reject k={k} submitted={len(got)}", sample=case, nontrivial=True)
+            acc.extra["cli_invocations"] += 1
+            if problems:
+                acc.violation(sig=dict(kind="cli-reject", what=problems[0].split(" ")[-2] + " " + problems[0].split(" ")[-1]), case=case, observed=problems,
+                              msg=f"dag={dag} fresh={fresh}: sbatch #{k} ({rejected}) rejected, run submitted {got}: {problems[:2]}")
+
+
 def run(ctx):
     import mc.checks.c01 as c01
     import mc.checks.c02 as me
@@ -248,6 +303,7 @@ def run(ctx):
     if not quick:
         # n = 4: all 543 labelled DAGs, reduced alphabets (backend states incl. every class, selections default+singletons+pattern)
         ctx.pmap(me, "dag4_batch", all_dags(4), chunk=4)
+    ctx.pmap(me, "cli_reject_batch", [(dag, fresh) for dag in dags for fresh in (("missing",) * 3, ("newer", "older", "missing"), ("older", "newer", "missing"))], chunk=4)
     ctx.pmap(me, "cli_batch", [(dag, fresh, sel) for dag in dags for fresh in (("missing",) * 3, ("newer", "older", "missing"), ("newer", "newer", "newer"))
                                for sel in selections(3, False)], chunk=16)
     ctx.pmap(me, "wf_batch", c01.wf_items(2, 3), ranks=2 if quick else 3, sels=(None, ["T1"]) if quick else (None, ["T0"], ["T1"]))
@@ -302,6 +358,9 @@ def replay(case):
     if c["kind"] == "cli":
         cli_batch(acc, [(tuple(tuple(x) for x in c["dag"]), tuple(c["fresh"]), c["sel"])])
         return acc.violations
+    if c["kind"] == "cli-reject":
+        cli_reject_batch(acc, [(tuple(tuple(x) for x in c["dag"]), tuple(c["fresh"]))])
+        return [v for v in acc.violations if v["case"]["k"] == c["k"]]
     if c["kind"] == "dag":
         dag = tuple(tuple(x) for x in c["dag"])
         descs, files = realise(dag, tuple(c["fresh"]))
